@@ -1,6 +1,7 @@
 package main
 
 import (
+	"embed"
 	"context"
 	"bytes"
 	"errors"
@@ -121,6 +122,8 @@ type MsgSpec struct {
 	// (setters instead of options, per-header helpers, string / template bodies, fields set after the
 	// fact, Reset before building, ...). The operations sent to the model are the same.
 	Variant uint64 `json:"variant,omitempty"`
+	// Middleware: the message is created WithMiddleware(mw); mw sets the header X-Middleware at render time
+	Middleware bool `json:"middleware,omitempty"`
 }
 
 var addrKinds = []mail.AddrHeader{mail.HeaderFrom, mail.HeaderEnvelopeFrom, mail.HeaderTo, mail.HeaderCc, mail.HeaderBcc, mail.HeaderReplyTo}
@@ -200,6 +203,9 @@ func (sp *MsgSpec) Build() (*mail.Msg, []string, error) {
 	}
 	if pick(3) == 1 {
 		opts = append(opts, mail.WithMIMEVersion(mail.MIME10))
+	}
+	if sp.Middleware {
+		opts = append(opts, mail.WithMiddleware(headerMiddleware{}))
 	}
 	m := mail.NewMsg(opts...)
 	for _, f := range later {
@@ -521,6 +527,25 @@ func (sp *MsgSpec) Build() (*mail.Msg, []string, error) {
 					err = m.EmbedFromIOFS(base, os.DirFS(dir), fo...)
 				}
 			}
+		case "embedfs":
+			// a file compiled into the program (embed.FS); its content is what it is
+			f.Content = embeddedAsset
+			fo = append(fo, mail.WithFileName(f.Name))
+			if f.Attach {
+				err = m.AttachFromEmbedFS("embedded/asset.txt", &embeddedFS, fo...)
+			} else {
+				err = m.EmbedFromEmbedFS("embedded/asset.txt", &embeddedFS, fo...)
+			}
+		case "htmltpl":
+			tpl, terr := htmltemplate.New("t").Parse("{{.}}")
+			if terr != nil {
+				return nil, nil, terr
+			}
+			if f.Attach {
+				err = m.AttachHTMLTemplate(f.Name, tpl, htmltemplate.HTML(f.Content), fo...)
+			} else {
+				err = m.EmbedHTMLTemplate(f.Name, tpl, htmltemplate.HTML(f.Content), fo...)
+			}
 		case "tpl":
 			tpl, terr := texttemplate.New("t").Parse("{{.}}")
 			if terr != nil {
@@ -603,8 +628,12 @@ func (sp *MsgSpec) Build() (*mail.Msg, []string, error) {
 		m.SetAttachments(att)
 		m.SetEmbeds(emb)
 	}
+	if sp.Middleware {
+		// applied by every render before anything is written: the same as the header having been set
+		ops = append(ops, "gen", encS("X-Middleware"), encLS([]string{"set by the middleware"}))
+	}
 	if sp.SMIME != "" {
-		if err := signWith(m, sp.SMIME); err != nil {
+		if err := signWith(m, sp.SMIME, pick(3)); err != nil {
 			return nil, nil, err
 		}
 		ops = append(ops, "smime")
@@ -926,6 +955,22 @@ func genSpec(r *Rng, o genOpts) *MsgSpec {
 	if !o.noVariants && r.Chance(50) {
 		spc.Variant = r.U64() | 1
 	}
+	if !o.noVariants && r.Chance(8) {
+		spc.Middleware = true
+	}
+	if !o.noVariants {
+		for i := range spc.Files {
+			f := &spc.Files[i]
+			if f.Fails || !r.Chance(35) {
+				continue
+			}
+			f.Source = []string{"seeker", "fs", "iofs", "tpl", "htmltpl", "embedfs"}[r.Intn(6)]
+			if f.Source == "tpl" || f.Source == "htmltpl" {
+				// templates carry text: valid UTF-8 free of template actions
+				f.Content = []byte(strings.ToValidUTF8(strings.ReplaceAll(string(f.Content), "{{", "{ {"), "?"))
+			}
+		}
+	}
 	return spc
 }
 
@@ -935,6 +980,20 @@ func max(a, b int) int {
 	}
 	return b
 }
+
+type headerMiddleware struct{}
+
+func (headerMiddleware) Handle(m *mail.Msg) *mail.Msg {
+	m.SetGenHeader("X-Middleware", "set by the middleware")
+	return m
+}
+func (headerMiddleware) Type() mail.MiddlewareType { return "gmverif-header" }
+
+//go:embed embedded/asset.txt
+var embeddedFS embed.FS
+
+//go:embed embedded/asset.txt
+var embeddedAsset []byte
 
 // expandedGen: the generic header operations with the convenience setters replaced by what they are
 // documented to set (for the oracles; Disposition-Notification-To carries no value to compare)
@@ -966,6 +1025,9 @@ func (sp *MsgSpec) expandedGen() []GenOp {
 		case "mdn":
 			out = append(out, GenOp{Key: "Disposition-Notification-To"})
 		}
+	}
+	if sp.Middleware {
+		out = append(out, GenOp{Key: "X-Middleware", Values: []string{"set by the middleware"}})
 	}
 	return out
 }
